@@ -18,20 +18,21 @@ class GammaRobustVariationalELBO(_ApproximateMarginalLogLikelihood):
 
        \begin{align*}
           \mathcal{L}_{\gamma} &=
-          \sum_{i=1}^N \mathbb{E}_{q( \mathbf u)} \left[
-            -\frac{\gamma}{\gamma - 1}
+          \sum_{i=1}^N \mathbb{E}_{q( f_i)} \left[
+            \frac{\gamma}{\gamma - 1}
             \frac{
-                p( y_i \! \mid \! \mathbf u, x_i)^{\gamma - 1}
+                p( y_i \! \mid \! f_i)^{\gamma - 1}
             }{
-                \int p(y \mid \mathbf u, x_i)^{\gamma} \: dy
+                \left( \int p(y \mid f_i)^{\gamma} \: dy \right)^{(\gamma - 1) / \gamma}
             }
           \right] - \beta \: \text{KL} \left[ q( \mathbf u) \Vert p( \mathbf u) \right]
        \end{align*}
 
     where :math:`N` is the number of datapoints, :math:`\gamma` is a hyperparameter,
     :math:`q(\mathbf u)` is the variational distribution for
-    the inducing function values, and :math:`p(\mathbf u)` is the prior distribution for the inducing function
-    values.
+    the inducing function values, :math:`q(f_i)` is the marginal of
+    :math:`p(f_i \mid \mathbf u, \mathbf x_i) q(\mathbf u)`,
+    and :math:`p(\mathbf u)` is the prior distribution for the inducing function values.
 
     :math:`\beta` is a scaling constant for the KL divergence.
 
@@ -94,7 +95,7 @@ class GammaRobustVariationalELBO(_ApproximateMarginalLogLikelihood):
             + 0.5 * mut.pow(2.0) * sigmat
         )
 
-        factor = log_tempered + shifted_gamma / self.gamma * log_integral
+        factor = log_tempered - shifted_gamma / self.gamma * log_integral
         factor = self.gamma * factor.exp()
 
         # Do appropriate summation for multitask Gaussian likelihoods
